@@ -54,7 +54,15 @@ def check(ctx):
             lm[site.rowloop] = "ROW"
         if site.colloop is not None:
             lm[site.colloop] = "COL"
-        g = tuple((canon_ids(simp(c), lm), pol) for c, pol in site.fact.guards)
+        iters = set()
+        for lp in site.fact.loops:
+            it = simp(lp.iter)
+            iters.add(it)
+            if it[0] == "call" and it[1] in (("global", "enumerate"), ("global", "list"), ("global", "tuple")) and len(it[2]) >= 1:
+                iters.add(simp(it[2][0]))
+        lens = {("call", ("global", "len"), (it,), ()) for it in iters}
+        # (`if xs:` around / inside `for x in xs:` -- a guard clause in front of the column loop -- holds for every iteration)
+        g = tuple((canon_ids(simp(c), lm), pol) for c, pol in site.fact.guards if not (pol is True and (simp(c) in iters or simp(c) in lens)))
         return (canon_ids(site.rowbase, lm) if site.rowbase is not None else canon_ids(site.row, lm), g)
 
     # no store into the Jacobian table at all: the table is kept in a representation that is not understood (not "every derivative
@@ -110,7 +118,7 @@ def check(ctx):
         sentinel_guard = (("cmp", ("Eq",), (slot0, ("const", "0.0"))), False)      # `if entry != '0.0': entry = wrap(entry)`
         gs = [(simp(c), p) for c, p in f.guards]
         cond_store = sentinel_guard in gs
-        rest = [g for g in gs if g != sentinel_guard]
+        rest = list(dict.fromkeys(g for g in gs if g != sentinel_guard))        # (the same test twice -- caller and helper -- is one condition)
         g_ok = len(rest) == 1 and rest[0][1] is True and m.is_has_thermal(rest[0][0])
         # wrong: applied unconditionally, or under the negated / only under the thermal flag plus nothing else that is understood;
         # a further condition that is not understood is "cannot decide"
@@ -223,6 +231,11 @@ def check(ctx):
             n6 += 1
             lw = lower(s.fact.value)
             txt = lw.text
+            head = txt.lstrip()
+            if any(head.startswith(k_) for k_ in list(lw.holes) + list(lw.seqs)) or lw.errors:
+                # the term begins with a value that was not read as text (a sign / prefix computed elsewhere): not "empty"
+                ctx.unrec("R6", f"{site_key(s)}:nonempty", where(s), f"the appended term begins with a value that is not read as text: {txt[:100]}")
+                continue
             ctx.check(len(txt.strip()) > 0 and txt.lstrip()[:1] in "+-" and txt != "", "R6", f"{site_key(s)}:nonempty", where(s),
                       "every store appends a non-empty signed term, so a slot equals '0.0' iff no store reached it", found=txt)
     ctx.floor("R6", "jacobian stores", n6, 5)
@@ -504,16 +517,23 @@ def _pair(ctx, m, kind, rs, js):
         ctx.bad("R1", f"{site_key(js)}:sign", where(js), f"Jacobian term has sign {js.sign:+d}, RHS term {rs.sign:+d}",
                 expected=f"{rs.sign:+d}", found=js.text)
         good = False
+    from ..odemodel import not_understood
     if js.coeff != rs.coeff:
-        ctx.bad("R1", f"{site_key(js)}:coeff", where(js), "Jacobian term carries a different coefficient than the RHS term",
-                expected=show(rs.coeff), found=show(js.coeff))
+        # two values that were followed to the end and differ are different coefficients; one with a part that was not followed
+        # (a helper's result, a list filled elsewhere) may be the same text spelled another way
+        unk = (js.coeff is not None and not_understood(js.coeff)) or (rs.coeff is not None and not_understood(rs.coeff))
+        (ctx.unrec if unk else ctx.bad)("R1", f"{site_key(js)}:coeff", where(js), "Jacobian term carries a different coefficient than the RHS term"
+                                        + (" (one of the two is built from a value that was not followed)" if unk else ""),
+                                        **({} if unk else dict(expected=show(rs.coeff), found=show(js.coeff))))
         good = False
     if rs.seq and js.seq:
         same = norm_bv((js.seq["bv"], js.seq["body"], js.seq["base"], js.seq["ifs"])) == \
             norm_bv((rs.seq["bv"], rs.seq["body"], rs.seq["base"], rs.seq["ifs"]))
         if not same:
-            ctx.bad("R1", f"{site_key(js)}:factors", where(js), "Jacobian product is built from a different factor list than the RHS term",
-                    expected=show(rs.seq["base"]), found=show(js.seq["base"]))
+            unk = any(not_understood(x[k_]) for x in (js.seq, rs.seq) for k_ in ("body", "base"))
+            (ctx.unrec if unk else ctx.bad)("R1", f"{site_key(js)}:factors", where(js), "Jacobian product is built from a different factor list than the RHS term"
+                                            + (" (one of the two is built from a value that was not followed)" if unk else ""),
+                                            **({} if unk else dict(expected=show(rs.seq["base"]), found=show(js.seq["base"]))))
             good = False
         if js.seq["minus"] is None:
             good = False
@@ -524,14 +544,17 @@ def _pair(ctx, m, kind, rs, js):
             ctx.bad("R1", f"{site_key(js)}:loops", where(js), "row and column are driven by the same loop variable")
             good = False
         if good and len(js.fact.loops) != 3:
-            ctx.bad("R1", f"{site_key(js)}:loops", where(js), f"expected reaction x row x column loops, found {len(js.fact.loops)} loops")
+            # (the same nest as the RHS term plus the column loop, under a common outer loop, is another spelling of the enumeration)
+            (ctx.bad if len(rs.fact.loops) == 2 else ctx.unrec)("R1", f"{site_key(js)}:loops", where(js), f"expected reaction x row x column loops, found {len(js.fact.loops)} loops"
+                                                              + ("" if len(rs.fact.loops) == 2 else f" (the RHS term sits in {len(rs.fact.loops)})"))
             good = False
     elif kind in ("heat", "cool"):
         if js.row != ("tgas",):
             ctx.bad("R1", f"{site_key(js)}:row", where(js), "thermal Jacobian term must be stored in row n_spec", found=str(js.row))
             good = False
         if good and len(js.fact.loops) != 2:
-            ctx.bad("R1", f"{site_key(js)}:loops", where(js), f"expected process x column loops, found {len(js.fact.loops)}")
+            (ctx.bad if len(rs.fact.loops) == 1 else ctx.unrec)("R1", f"{site_key(js)}:loops", where(js), f"expected process x column loops, found {len(js.fact.loops)}"
+                                                              + ("" if len(rs.fact.loops) == 1 else f" (the RHS term sits in {len(rs.fact.loops)})"))
             good = False
     else:
         if js.row != rs.row:
@@ -707,8 +730,11 @@ def _r4_templates(ctx, rule_decode="R4", rule_omit="R6", sent=None):
             texts = ("row = (loop.index0 / ode.jac.nrow) | int", "col = loop.index0 % ode.jac.nrow")
         else:
             # rows of ode.jac.nrow consecutive entries: entry c of row r is ode.jac.rhs[r * nrow + c]
-            ctx.check(J.canon(rec["batch"]) == NROW, rule_decode, f"{label}:row-length", (rel, line), "the table is cut into rows of ode.jac.nrow entries",
-                      expected="batch(ode.jac.nrow)", found=J.show(rec["batch"]))
+            if J.canon(rec["batch"]) == NROW or positional(J.canon(rec["batch"])):
+                ctx.check(J.canon(rec["batch"]) == NROW, rule_decode, f"{label}:row-length", (rel, line), "the table is cut into rows of ode.jac.nrow entries",
+                          expected="batch(ode.jac.nrow)", found=J.show(rec["batch"]))
+            else:
+                ctx.unrec(rule_decode, f"{label}:row-length", (rel, line), f"the row length `{J.show(rec['batch'])[:80]}` the table is cut by is not read as a field of ode.jac / a length of the network's lists")
             want_row, want_col = out0, idx0
             texts = ("row = position of the row in ode.jac.rhs | batch(nrow)", "col = position of the entry in its row")
         # wrong: another arithmetic expression of the loop position and nrow; anything else (a macro, a filter, a table) is not understood
@@ -743,6 +769,25 @@ def _r4_templates(ctx, rule_decode="R4", rule_omit="R6", sent=None):
 
 
 # -------------------------------------------------------------------- R5 dataclass calls
+
+RENDER_KEEP = ("_prepare_ode_content", "_prepare_renorm_content", "_render", "_prepare_contents")
+
+
+def render_functions(pkg):
+    """The two `render` methods that build a NetworkInfo (TemplateLoader.render, EnzoPatch.render), each with the helpers it was split
+    into put back (pymodel.Package.expanded): `info = self._collect_network_info(network)` is still the NetworkInfo(...) call it
+    returns.  -> [(file, class, method, FunctionDef)]"""
+    out = []
+    for file, cls, meth, keep in ((FILE, "TemplateLoader", "render", RENDER_KEEP), ("naunet/patches.py", "EnzoPatch", "render", ("_render", "_render_derived_field"))):
+        if cls not in pkg.classes or pkg.classes[cls].methods.get(meth) is None:
+            continue
+        try:
+            fn = pkg.expanded(cls, meth, keep=keep)
+        except RecursionError:
+            fn = pkg.classes[cls].methods[meth]
+        out.append((file, cls, meth, fn))
+    return out
+
 
 def dataclass_fields(pkg, name):
     ci = pkg.cls(name)
@@ -932,12 +977,7 @@ def _r5(ctx, m):
     # --- NetworkInfo (2 sites)
     fields = dataclass_fields(pkg, "NetworkInfo")
     n = 0
-    for file, cls, meth in ((FILE, "TemplateLoader", "render"), ("naunet/patches.py", "EnzoPatch", "render")):
-        if cls not in pkg.classes:
-            continue
-        fn = pkg.classes[cls].methods.get(meth)
-        if fn is None:
-            continue
+    for file, cls, meth, fn in render_functions(pkg):
         ctx.saw(file, f"{cls}.{meth}")
         for c in ast.walk(fn):
             if isinstance(c, ast.Call) and ast.unparse(c.func) == "NetworkInfo":
@@ -972,6 +1012,8 @@ def _r5(ctx, m):
 
 T = FILE
 MUTANTS = [
+    {'name': 'thermal-wrap-in-a-guard-clause-helper-drops-gamma', 'edits': [{'file': 'naunet/templateloader.py', 'old': '    def _prepare_ode_content(\n', 'new': '    @staticmethod\n    def _wrap_thermal(rhs, jacrhs, n_spec, n_eqns, has_thermal):\n        if not has_thermal:\n            return\n        rhs[n_spec] = f"(gamma - 1.0) * ( {rhs[n_spec]} ) / kerg / npar"\n        for si in range(n_spec):\n            pos = n_spec * n_eqns + si\n            if jacrhs[pos] != "0.0":\n                jacrhs[pos] = f"( {jacrhs[pos]} ) / kerg / npar"\n\n    def _prepare_ode_content(\n'}, {'file': 'naunet/templateloader.py', 'old': '            rhs[n_spec] = f"(gamma - 1.0) * ( {rhs[n_spec]} ) / kerg / npar"\n            for si in range(n_spec):\n                jacrhs[n_spec * n_eqns + si] = (\n                    "0.0"\n                    if jacrhs[n_spec * n_eqns + si] == "0.0"\n                    else f"(gamma - 1.0) * ( {jacrhs[n_spec * n_eqns + si]} ) / kerg / npar"\n                )\n', 'new': '            self._wrap_thermal(rhs, jacrhs, n_spec, n_eqns, has_thermal)\n'}], 'rules': ['R3']},
+    {'name': 'heat-derivative-terms-from-a-list-helper-that-removes-nothing', 'edits': [{'file': 'naunet/templateloader.py', 'old': '    def _prepare_ode_content(\n', 'new': '    @staticmethod\n    def _derivative_terms(prefix, rspecidx, rsym, y):\n        terms = []\n        for ri in rspecidx:\n            rest = rsym.copy()\n            terms.append((ri, "*".join([prefix, *rest])))\n        return terms\n\n    def _prepare_ode_content(\n'}, {'file': 'naunet/templateloader.py', 'old': '            for ri in rspecidx:\n                rsymcopy = rsym.copy()\n                rsymcopy.remove(y[ri])\n                term = f" + {\'*\'.join([f\'{hrate_sym}[{hidx}]\', *rsymcopy])}"\n                # only fill the last row of jacobian\n                jacrhs[n_spec * n_eqns + ri] += term\n', 'new': '            for ri, dterm in self._derivative_terms(f"{hrate_sym}[{hidx}]", rspecidx, rsym, y):\n                jacrhs[n_spec * n_eqns + ri] += f" + {dterm}"\n'}], 'rules': ['R1']},
     {"name": "jacobian-table-handed-out-from-a-module-level-memo", "edits": [
         {"file": T, "old": "\nclass TemplateLoader:\n", "new": "\n_JAC_TABLES = {}\n\n\nclass TemplateLoader:\n"},
         {"file": T, "old": "    def _prepare_ode_content(\n", "new": "    def _empty_table(self, n):\n        table = _JAC_TABLES.get(n)\n        if table is None:\n            table = [\"0.0\"] * n * n\n            _JAC_TABLES[n] = table\n        return table\n\n    def _prepare_ode_content(\n"},
@@ -1038,6 +1080,12 @@ MUTANTS = [
     {"name": "skip-catalyst-jac", "file": T, "old": "            for specidx in pspecidx:\n                for ri in rspecidx:\n                    rsymcopy = rsym.copy()", "new": "            for specidx in pspecidx:\n                if specidx in rspecidx:\n                    continue\n                for ri in rspecidx:\n                    rsymcopy = rsym.copy()", "rules": ["R1"]},
 ]
 BENIGN = [
+    {'name': 'heat-guard-clause-before-column-loop', 'file': 'naunet/templateloader.py', 'old': '            for ri in rspecidx:\n                rsymcopy = rsym.copy()\n                rsymcopy.remove(y[ri])\n                term = f" + {\'*\'.join([f\'{hrate_sym}[{hidx}]\', *rsymcopy])}"\n                # only fill the last row of jacobian\n                jacrhs[n_spec * n_eqns + ri] += term\n', 'new': '            if not rspecidx:\n                continue\n            for ri in rspecidx:\n                rsymcopy = rsym.copy()\n                rsymcopy.remove(y[ri])\n                term = f" + {\'*\'.join([f\'{hrate_sym}[{hidx}]\', *rsymcopy])}"\n                # only fill the last row of jacobian\n                jacrhs[n_spec * n_eqns + ri] += term\n'},
+    {'name': 'wrap-thermal-block-guard-clause-helper', 'edits': [{'file': 'naunet/templateloader.py', 'old': '    def _prepare_ode_content(\n', 'new': '    @staticmethod\n    def _wrap_thermal(rhs, jacrhs, n_spec, n_eqns, has_thermal):\n        if not has_thermal:\n            return\n        rhs[n_spec] = f"(gamma - 1.0) * ( {rhs[n_spec]} ) / kerg / npar"\n        for si in range(n_spec):\n            pos = n_spec * n_eqns + si\n            if jacrhs[pos] != "0.0":\n                jacrhs[pos] = f"(gamma - 1.0) * ( {jacrhs[pos]} ) / kerg / npar"\n\n    def _prepare_ode_content(\n'}, {'file': 'naunet/templateloader.py', 'old': '            rhs[n_spec] = f"(gamma - 1.0) * ( {rhs[n_spec]} ) / kerg / npar"\n            for si in range(n_spec):\n                jacrhs[n_spec * n_eqns + si] = (\n                    "0.0"\n                    if jacrhs[n_spec * n_eqns + si] == "0.0"\n                    else f"(gamma - 1.0) * ( {jacrhs[n_spec * n_eqns + si]} ) / kerg / npar"\n                )\n', 'new': '            self._wrap_thermal(rhs, jacrhs, n_spec, n_eqns, has_thermal)\n'}]},
+    {'name': 'heat-jac-terms-from-list-helper', 'edits': [{'file': 'naunet/templateloader.py', 'old': '    def _prepare_ode_content(\n', 'new': '    @staticmethod\n    def _derivative_terms(prefix, rspecidx, rsym, y):\n        terms = []\n        for ri in rspecidx:\n            rest = rsym.copy()\n            rest.remove(y[ri])\n            terms.append((ri, "*".join([prefix, *rest])))\n        return terms\n\n    def _prepare_ode_content(\n'}, {'file': 'naunet/templateloader.py', 'old': '            for ri in rspecidx:\n                rsymcopy = rsym.copy()\n                rsymcopy.remove(y[ri])\n                term = f" + {\'*\'.join([f\'{hrate_sym}[{hidx}]\', *rsymcopy])}"\n                # only fill the last row of jacobian\n                jacrhs[n_spec * n_eqns + ri] += term\n', 'new': '            for ri, dterm in self._derivative_terms(f"{hrate_sym}[{hidx}]", rspecidx, rsym, y):\n                jacrhs[n_spec * n_eqns + ri] += f" + {dterm}"\n'}]},
+    {'name': 'n-eqns-conditional-expression', 'file': 'naunet/templateloader.py', 'old': '        n_eqns = max(n_spec + has_thermal, 1)\n', 'new': '        n_eqns = n_spec + 1 if has_thermal else n_spec\n        n_eqns = max(n_eqns, 1)\n'},
+    {'name': 'netinfo-module-function', 'edits': [{'file': 'naunet/templateloader.py', 'old': '\nclass TemplateLoader:\n', 'new': '\ndef _network_info(net):\n    dummy = [Reaction(reaction_type=ReactionType.DUMMY)]\n    return NetworkInfo(net.elements, net.species, net.reactions or dummy, net.heating, net.cooling, net.grains, net.shielding)\n\n\nclass TemplateLoader:\n'}, {'file': 'naunet/templateloader.py', 'old': '        info = NetworkInfo(\n            network.elements,\n            network.species,\n            network.reactions or [Reaction(reaction_type=ReactionType.DUMMY)],\n            network.heating,\n            network.cooling,\n            network.grains,\n            network.shielding,\n        )\n', 'new': '        info = _network_info(network)\n'}]},
+    {'name': 'csr-extracted-into-helper-returning-tuple', 'edits': [{'file': 'naunet/templateloader.py', 'old': '    def _prepare_ode_content(\n', 'new': '    @staticmethod\n    def _to_csr(entries, n):\n        rptr, cval, data = [], [], []\n        count = 0\n        for row in range(n):\n            rptr.append(count)\n            for col in range(n):\n                elem = entries[row * n + col]\n                if elem != "0.0":\n                    cval.append(col)\n                    data.append(f"{elem}")\n                    count += 1\n        rptr.append(count)\n        return count, rptr, cval, data\n\n    def _prepare_ode_content(\n'}, {'file': 'naunet/templateloader.py', 'old': '        spjacrptr = []\n        spjaccval = []\n        spjacdata = []\n\n        nnz = 0\n\n        for row in range(n_eqns):\n            spjacrptr.append(nnz)\n            for col in range(n_eqns):\n                elem = jacrhs[row * n_eqns + col]\n                if elem != "0.0":\n                    spjaccval.append(col)\n                    spjacdata.append(f"{elem}")\n                    nnz += 1\n        spjacrptr.append(nnz)\n', 'new': '        nnz, spjacrptr, spjaccval, spjacdata = self._to_csr(jacrhs, n_eqns)\n'}]},
     {"name": "jacobian-kept-as-a-list-of-rows-flattened-once", "edits": [
         {"file": T, "old": "from pathlib import Path\n", "new": "from itertools import chain\nfrom pathlib import Path\n"},
         {"file": T, "old": '        jacrhs = ["0.0"] * n_eqns * n_eqns\n', "new": '        jacrows = [["0.0"] * n_eqns for _ in range(n_eqns)]\n'},
